@@ -187,6 +187,20 @@ let aenv_of_field s =
   let pats = List.init m (fun _ -> name ()) in
   { tminfo = tms; patterns = pats }
 
+(* names: fn list "name:ndef:suffix:das:tmpl:generic;..."  suffix = "-" | "S<ustr>", lists comma separated ("-" empty),
+   tmpl items "ex/flat" with ex = "-" | "S<ustr>" *)
+let optu s = if s = "-" then None else Some (ustr_of_field (String.sub s 1 (String.length s - 1)))
+let lst f s = if s = "-" || s = "" then [] else List.map f (String.split_on_char ',' s)
+let fn_of s = match String.split_on_char ':' s with
+  | [n; nd; sx; das; tm; ge] ->
+      { f_name = ustr_of_field n; f_ndef = nat_of_int (int_of_string nd); f_suffix = optu sx;
+        f_das = lst (fun x -> ustr_of_field (String.sub x 1 (String.length x - 1))) das;
+        f_tmpl = lst (fun x -> match String.split_on_char '/' x with [a; b] -> (optu a, ustr_of_field b) | _ -> failwith "tmpl") tm;
+        f_generic = lst (fun x -> ustr_of_field (String.sub x 1 (String.length x - 1))) ge }
+  | _ -> failwith "fn"
+let show_origin = function Orig -> "O" | DefaultArg k -> "D" ^ string_of_int (int_of_nat k)
+  | Template k -> "T" ^ string_of_int (int_of_nat k) | Generic k -> "G" ^ string_of_int (int_of_nat k)
+
 let handle fields =
   match fields with
   | ["wc"; ll; ind; sp; ct; line] ->
@@ -267,6 +281,14 @@ let handle fields =
   | ["reparse"; c; s] ->
       show_result (fun ((st, t), r2) -> show_stmt st ^ "|" ^ field_of_ustr t ^ "|" ^ show_result show_stmt r2)
         (reparse (ctx_of_field c) (ustr_of_field s))
+  | ["names"; prefix; scope; fscope; fns] ->
+      let fs = if fns = "" then [] else List.map fn_of (String.split_on_char ';' fns) in
+      let p, sc, fsc = ustr_of_field prefix, ustr_of_field scope, ustr_of_field fscope in
+      String.concat ";" (List.map (fun e ->
+        string_of_int (int_of_nat e.e_src) ^ show_origin e.e_origin ^ ":" ^
+        (if e.e_c then field_of_ustr (nm_c_name p sc e) else "-") ^ ":" ^
+        (if e.e_f then field_of_ustr (nm_f_impl fsc e) else "-") ^ ":" ^ field_of_ustr (nm_f_generic e)) (expand fs))
+  | ["uncamel"; s] -> field_of_ustr (un_camel (ustr_of_field s))
   | ["decl"; c; s] -> show_result show_stmt (parse_statement (ctx_of_field c) (ustr_of_field s))
   | ["lstrip"; s] -> field_of_ustr (lstrip (ustr_of_field s))
   | ["rstrip"; s] -> field_of_ustr (rstrip (ustr_of_field s))
